@@ -384,12 +384,33 @@ impl<Db: Database> StorageManager<Db> {
         None
     }
 
+    /// Retrieve a stored record as it has been committed: like [`get`](Self::get), but a record that is
+    /// pending in an open transaction is not taken into account.
+    pub async fn get_committed<St: Storable>(
+        &self,
+        id: &St::StorageKey,
+    ) -> Result<DbRecord, StorageError> {
+        if let Some(cache) = &self.cache {
+            if let Some(result) = cache.hit_test::<St>(id).await {
+                return Ok(result);
+            }
+        }
+        self.get_from_data_layer::<St>(id).await
+    }
+
     /// Retrieve a stored record from the database.
     pub async fn get<St: Storable>(&self, id: &St::StorageKey) -> Result<DbRecord, StorageError> {
         if let Some(result) = self.get_from_cache_only::<St>(id).await {
             return Ok(result);
         }
+        self.get_from_data_layer::<St>(id).await
+    }
 
+    /// A cache miss: read the record from the data layer and cache it
+    async fn get_from_data_layer<St: Storable>(
+        &self,
+        id: &St::StorageKey,
+    ) -> Result<DbRecord, StorageError> {
         // cache miss, read direct from db
         self.increment_metric(METRIC_GET);
 
